@@ -267,13 +267,19 @@ func policyLabels(p pdfsyn.Policy) []string {
 
 func genTree(t *rapid.T) TreeCase {
 	tree := pdfsyn.GenObj(t, pdfsyn.GenOpts{MaxDepth: 4})
-	if rapid.IntRange(0, 24).Draw(t, "wide") == 0 {
+	if rapid.IntRange(0, 199).Draw(t, "wide") == 100 { // (a mid-range value: rapid favours the ends of a range)
 		// a wide, shallow tree: hundreds of small arrays and dictionaries side by side (the /W array of a CID
 		// font, a /Kids array, a name tree leaf): nesting depth 2-3, but far more containers than any depth limit
-		n := rapid.IntRange(520, 900).Draw(t, "wideLen")
+		n := rapid.IntRange(520, 700).Draw(t, "wideLen")
 		tree = pdfsyn.Obj{K: pdfsyn.Array}
 		for i := 0; i < n; i++ {
-			tree.A = append(tree.A, pdfsyn.GenObj(t, pdfsyn.GenOpts{MaxDepth: 2, MaxLen: 2, NoBare: true}))
+			// like a /W array: c [w1 w2 ...] pairs; every other element is certainly an array
+			tree.A = append(tree.A, pdfsyn.GenObj(t, pdfsyn.GenOpts{MaxDepth: 1, NoBare: true, NoRefs: true}))
+			el := pdfsyn.Obj{K: pdfsyn.Array}
+			for j, m := 0, rapid.IntRange(0, 2).Draw(t, "wideElemLen"); j < m; j++ {
+				el.A = append(el.A, pdfsyn.GenObj(t, pdfsyn.GenOpts{MaxDepth: 1, NoBare: true, NoRefs: true}))
+			}
+			tree.A = append(tree.A, el)
 		}
 	}
 	pol := pdfsyn.GenPolicy(t)
